@@ -83,6 +83,7 @@ func c03Nontrivial(g *TGrid) bool {
 }
 
 func runC03(x *X) {
+	runC03Items(x)
 	runC03UpdateFromCallback(x)
 	registered := []DecorChoice{}
 	for _, n := range decoration.RegisteredDecorationNames() {
